@@ -468,10 +468,26 @@ class Inliner:
         self._local_cls_cache: Dict[tuple, object] = {}
         self.obj_class: Dict[str, object] = {}     # synthetic object name -> ClassInfo (inlined constructor calls)
         self.obj_forward: Dict[str, Dict[str, ast.AST]] = {}   # synthetic object name -> {field: expression it forwards}
+        self.lambda_alias: Dict[str, ast.Lambda] = {}          # (renamed) parameter name -> lambda literal it was bound to
 
     def is_new(self, fi: FuncInfo) -> bool:
         if self.reference is None or fi.qualname in self.reference:
             return False
+        if getattr(fi, "cls", None) is None and getattr(fi, "parent", None) is None:
+            # a module-level function that was moved to another module and is still importable under its old name
+            # (`from .vcard import apply_text_match` in the old module): an anchor of the rules, not a helper
+            idx = self.__dict__.get("_ref_by_name")
+            if idx is None:
+                idx = self._ref_by_name = {}
+                for q in self.reference:
+                    idx.setdefault(q.rsplit(".", 1)[-1], []).append(q)
+            for old_q in idx.get(fi.name, ()):
+                try:
+                    kind, obj = self.P._resolve_abs(old_q)
+                except Exception:
+                    continue
+                if kind == "func" and obj is fi:
+                    return False
         if getattr(fi, "cls", None) is not None:
             # a method the reference tree defines elsewhere in the same class hierarchy (pulled up / pushed down):
             # still an anchor of the rules, not a helper
@@ -503,6 +519,16 @@ class Inliner:
                 ast.copy_location(body_, fn)
                 fdef = ast.FunctionDef(name="__lambda__", args=a_, body=[body_], decorator_list=[], returns=None)
                 _fix_locs(fdef, getattr(fn, "lineno", 0))
+                return _Pseudo("lambda", fdef, root.module)
+            return None
+        if isinstance(fn, ast.Name) and fn.id in self.lambda_alias and usage == "value" and len(stack) < MAX_DEPTH + 2:
+            lam = self.lambda_alias[fn.id]      # a parameter of an inlined helper that was bound to a lambda literal
+            a_ = lam.args
+            if not (a_.vararg or a_.kwarg or a_.kwonlyargs):
+                body_ = ast.Return(value=copy.deepcopy(lam.body))
+                ast.copy_location(body_, lam)
+                fdef = ast.FunctionDef(name="__lambda__", args=copy.deepcopy(a_), body=[body_], decorator_list=[], returns=None)
+                _fix_locs(fdef, getattr(lam, "lineno", 0))
                 return _Pseudo("lambda", fdef, root.module)
             return None
         if isinstance(fn, ast.Name) and fn.id in self.fn_alias:
@@ -714,7 +740,7 @@ class Inliner:
         if usage == "for":
             if not is_gen:
                 return "not a generator"   # plain value: handled as 'value' by the caller
-            if any(isinstance(n, ast.YieldFrom) for n in yields) or not self._yields_are_statements(t):
+            if not self._yields_are_statements(t):
                 return "generator shape"
             return None
         if usage == "yieldfrom":
@@ -727,10 +753,10 @@ class Inliner:
     def _yields_are_statements(t: FuncInfo) -> bool:
         ok = set()
         for n in walk_local(t.node):
-            if isinstance(n, ast.Expr) and isinstance(n.value, ast.Yield):
+            if isinstance(n, ast.Expr) and isinstance(n.value, (ast.Yield, ast.YieldFrom)):
                 ok.add(id(n.value))
         for n in walk_local(t.node):
-            if isinstance(n, ast.Yield) and id(n) not in ok:
+            if isinstance(n, (ast.Yield, ast.YieldFrom)) and id(n) not in ok:
                 return False
         return True
 
@@ -817,6 +843,8 @@ class Inliner:
                 # `helper((f(x) for x in xs))` with `for y in <param>` in the helper: iterate over the expression itself
                 subst_iter[np_] = arg
                 continue
+            if isinstance(arg, ast.Lambda) and p not in assigned:
+                self.lambda_alias[np_] = arg
             # a function handed in as an argument (callback): calls through the parameter can be inlined too
             if isinstance(arg, (ast.Name, ast.Attribute)) and p not in assigned:
                 d_ = dotted(arg)
@@ -939,6 +967,13 @@ class Inliner:
                         stmts.append(ast.Expr(value=v, lineno=n.lineno, col_offset=0))
                     stmts.extend(caller_body)
                     return SplicedBody(stmts, kind, n.lineno)
+                if isinstance(n.value, ast.YieldFrom) and kind == "for":
+                    # `yield from X` hands on every item of X: the caller's body runs once per item
+                    tgt = copy.deepcopy(target) if target is not None else ast.Name(id="__yf_item", ctx=ast.Store())
+                    loop = ast.For(target=tgt, iter=n.value.value, body=[copy.deepcopy(x) for x in caller_body], orelse=[],
+                                   lineno=n.lineno, col_offset=0)
+                    ast.fix_missing_locations(loop)
+                    return loop
                 return n
 
             def visit_FunctionDef(self_, n):
